@@ -791,6 +791,55 @@ MATCHERS = {
     "C07.plain_kernel_float32_promoted": _m_plain_f32,
 }
 
+# --------------------------------------------------------------------------- Frame.propagate_to (tof/chopper_cascade.py)
+
+_FP_UNITS = {"m": 1.0, "mm": 1e-3, "cm": 1e-2}
+
+
+def enum_frame_propagate(tier, seed):
+    cases = []
+    for u1 in _FP_UNITS:
+        for d1 in ("float64", "int64"):
+            for u2 in _FP_UNITS:
+                for d2 in ("float64", "int64"):
+                    for first_m, second_m in ((1.5, 3.0), (2.371, 27.25), (0.037, 12.6)):
+                        cases.append({"u1": u1, "d1": d1, "u2": u2, "d2": d2, "first_m": first_m, "second_m": second_m})
+    return cases
+
+
+def check_frame_propagate(case):
+    """Two successive Frame.propagate_to calls with the distances given in any unit x dtype: the vertex times
+    must be t + d*lambda*m_n/h for the final distance d, whatever unit/dtype the intermediate one had."""
+    import scipp as sc
+    from scippneutron.tof import chopper_cascade as cc
+
+    def dist(metres, unit, dtype):
+        v = metres / _FP_UNITS[unit]
+        if dtype == "int64":
+            v = int(round(v))
+        return sc.scalar(v, unit=unit, dtype=dtype), float(v) * _FP_UNITS[unit]
+
+    d1, d1_m = dist(case["first_m"], case["u1"], case["d1"])
+    d2, d2_m = dist(case["second_m"], case["u2"], case["d2"])
+    seq = cc.FrameSequence.from_source_pulse(sc.scalar(0.0, unit="ms"), sc.scalar(2.0, unit="ms"),
+                                             sc.scalar(1.0, unit="angstrom"), sc.scalar(7.5, unit="angstrom"))
+    fr = seq[0].propagate_to(d1).propagate_to(d2)
+    sub = fr.subframes[0]
+    t0 = np.array([0.0, 2e-3, 2e-3, 0.0])
+    lam = np.array([1.0, 1.0, 7.5, 7.5])
+    k = kin.consts()
+    alpha = float(k["m_n"] / k["h"]) * 1e-10
+    want = t0 + alpha * d2_m * lam
+    got = np.asarray(sub.time.to(unit="s").values, dtype=float)
+    err = float(np.max(np.abs(got - want) / np.abs(want).clip(1e-300)))
+    labs = [f"d1:{case['u1']}/{case['d1']}", f"d2:{case['u2']}/{case['d2']}"]
+    if err > 1e-11:
+        raise Violation("value", f"Frame.propagate_to({d1.value} {case['u1']} [{case['d1']}]).propagate_to({d2.value} {case['u2']} "
+                                 f"[{case['d2']}]): vertex times {got.tolist()}, expected t + d*lambda*m_n/h = {want.tolist()} "
+                                 f"(rel. error {err:.3e})")
+    return labs, case["u1"] != "m" or case["d1"] != "float64" or case["u2"] != "m" or case["d2"] != "float64"
+
+
 FACETS = [
     Facet("elastic", check_point, enumerate=enum_elastic, exhaustive_in=("quick", "thorough"),
           quick=(3, 0), thorough=(16, 0), min_nontrivial=0.3,
@@ -804,6 +853,9 @@ FACETS = [
     Facet("chopper", check_point, enumerate=enum_chopper, exhaustive_in=("thorough",),
           quick=(2, 0), thorough=(16, 0), min_nontrivial=0.3,
           doc="wavelength_to_inverse_velocity, propagate_times"),
+    Facet("frame_propagate", check_frame_propagate, enumerate=enum_frame_propagate,
+          exhaustive_in=("quick", "thorough"), quick=(1, 0), thorough=(2, 0), min_nontrivial=0.3,
+          doc="Frame.propagate_to in two steps: distance unit (m, mm, cm) x dtype (float64, int64) for each step"),
     Facet("gravity", check_gravity, enumerate=enum_gravity, exhaustive_in=("thorough",),
           quick=(3, 0), thorough=(16, 0), min_nontrivial=0.3,
           doc="_drop_due_to_gravity through scattering_angles_with_gravity (both paths) and "
